@@ -4,15 +4,92 @@ From LTV.C11 Require Import Model Proofs ProofsInv.
 Import ListNotations.
 Local Open Scope Z_scope.
 
-Ltac gs := unfold getcs, getent, gettn, getq, updq, upde, updtn, updcs, with_qs, with_ents, with_tn, with_cs, with_cur, with_rs, with_max; simpl.
-Ltac gse := unfold getent, gettn, getq, updq, upde, updtn, updcs, with_qs, with_ents, with_tn, with_cs, with_cur, with_rs, with_max; simpl.
-Ltac bnd := rewrite ?length_upd; assumption.
+(* getters through the update functions (peeled layer by layer; [simpl] on the nested record
+   terms is exponential) *)
+Definition ntn h := length (h_tn h).
+Section Getters.
+Variables (h : half) (c c' t t' g g' : nat) (fc : cstat -> cstat) (fe : entry -> entry) (fq : queue -> queue) (z : Z) (x : Z) (rs : list N) (m : N).
+Lemma getcs_updq : getcs (updq g fq h) c = getcs h c. Proof. reflexivity. Qed.
+Lemma getcs_upde : getcs (upde t fe h) c = getcs h c. Proof. reflexivity. Qed.
+Lemma getcs_updtn : getcs (updtn t z h) c = getcs h c. Proof. reflexivity. Qed.
+Lemma getcs_wcur : getcs (with_cur h x) c = getcs h c. Proof. reflexivity. Qed.
+Lemma getcs_updcs_eq : (c < nc h)%nat -> getcs (updcs c fc h) c = fc (getcs h c).
+Proof. intros. unfold getcs, updcs, with_cs. cbn [h_cs]. apply nth_upd_eq. assumption. Qed.
+Lemma getcs_updcs_neq : c' <> c -> getcs (updcs c fc h) c' = getcs h c'.
+Proof. intros. unfold getcs, updcs, with_cs. cbn [h_cs]. apply nth_upd_neq. assumption. Qed.
+Lemma getent_updq : getent (updq g fq h) t = getent h t. Proof. reflexivity. Qed.
+Lemma getent_updcs : getent (updcs c fc h) t = getent h t. Proof. reflexivity. Qed.
+Lemma getent_updtn : getent (updtn t' z h) t = getent h t. Proof. reflexivity. Qed.
+Lemma getent_wcur : getent (with_cur h x) t = getent h t. Proof. reflexivity. Qed.
+Lemma getent_upde_eq : (t < nt h)%nat -> getent (upde t fe h) t = fe (getent h t).
+Proof. intros. unfold getent, upde, with_ents. cbn [h_ents]. apply nth_upd_eq. assumption. Qed.
+Lemma getent_upde_neq : t' <> t -> getent (upde t fe h) t' = getent h t'.
+Proof. intros. unfold getent, upde, with_ents. cbn [h_ents]. apply nth_upd_neq. assumption. Qed.
+Lemma gettn_updq : gettn (updq g fq h) t = gettn h t. Proof. reflexivity. Qed.
+Lemma gettn_updcs : gettn (updcs c fc h) t = gettn h t. Proof. reflexivity. Qed.
+Lemma gettn_upde : gettn (upde t' fe h) t = gettn h t. Proof. reflexivity. Qed.
+Lemma gettn_wcur : gettn (with_cur h x) t = gettn h t. Proof. reflexivity. Qed.
+Lemma gettn_updtn_eq : (t < ntn h)%nat -> gettn (updtn t z h) t = gettn h t + z.
+Proof. intros. unfold gettn, updtn, with_tn. cbn [h_tn]. rewrite nth_upd_eq by assumption. reflexivity. Qed.
+Lemma gettn_updtn_neq : t' <> t -> gettn (updtn t z h) t' = gettn h t'.
+Proof. intros. unfold gettn, updtn, with_tn. cbn [h_tn]. apply nth_upd_neq. assumption. Qed.
+Lemma getq_updcs : getq (updcs c fc h) g = getq h g. Proof. reflexivity. Qed.
+Lemma getq_upde : getq (upde t fe h) g = getq h g. Proof. reflexivity. Qed.
+Lemma getq_updtn : getq (updtn t z h) g = getq h g. Proof. reflexivity. Qed.
+Lemma getq_wcur : getq (with_cur h x) g = getq h g. Proof. reflexivity. Qed.
+Lemma getq_updq_eq : (g < ng h)%nat -> getq (updq g fq h) g = fq (getq h g).
+Proof. intros. unfold getq, updq, with_qs. cbn [h_qs]. apply nth_upd_eq. assumption. Qed.
+Lemma getq_updq_neq : g' <> g -> getq (updq g fq h) g' = getq h g'.
+Proof. intros. unfold getq, updq, with_qs. cbn [h_qs]. apply nth_upd_neq. assumption. Qed.
+Lemma nc_updq : nc (updq g fq h) = nc h. Proof. reflexivity. Qed.
+Lemma nc_upde : nc (upde t fe h) = nc h. Proof. reflexivity. Qed.
+Lemma nc_updtn : nc (updtn t z h) = nc h. Proof. reflexivity. Qed.
+Lemma nc_wcur : nc (with_cur h x) = nc h. Proof. reflexivity. Qed.
+Lemma nc_updcs : nc (updcs c fc h) = nc h. Proof. unfold nc, updcs, with_cs. cbn [h_cs]. apply length_upd. Qed.
+Lemma nt_updq : nt (updq g fq h) = nt h. Proof. reflexivity. Qed.
+Lemma nt_updcs : nt (updcs c fc h) = nt h. Proof. reflexivity. Qed.
+Lemma nt_updtn : nt (updtn t z h) = nt h. Proof. reflexivity. Qed.
+Lemma nt_wcur : nt (with_cur h x) = nt h. Proof. reflexivity. Qed.
+Lemma nt_upde : nt (upde t fe h) = nt h. Proof. unfold nt, upde, with_ents. cbn [h_ents]. apply length_upd. Qed.
+Lemma ntn_updq : ntn (updq g fq h) = ntn h. Proof. reflexivity. Qed.
+Lemma ntn_updcs : ntn (updcs c fc h) = ntn h. Proof. reflexivity. Qed.
+Lemma ntn_upde : ntn (upde t fe h) = ntn h. Proof. reflexivity. Qed.
+Lemma ntn_wcur : ntn (with_cur h x) = ntn h. Proof. reflexivity. Qed.
+Lemma ntn_updtn : ntn (updtn t z h) = ntn h. Proof. unfold ntn, updtn, with_tn. cbn [h_tn]. apply length_upd. Qed.
+Lemma ng_updcs : ng (updcs c fc h) = ng h. Proof. reflexivity. Qed.
+Lemma ng_upde : ng (upde t fe h) = ng h. Proof. reflexivity. Qed.
+Lemma ng_updtn : ng (updtn t z h) = ng h. Proof. reflexivity. Qed.
+Lemma ng_wcur : ng (with_cur h x) = ng h. Proof. reflexivity. Qed.
+Lemma ng_updq : ng (updq g fq h) = ng h. Proof. unfold ng, updq, with_qs. cbn [h_qs]. apply length_upd. Qed.
+End Getters.
+
+Ltac dims1 := first [ rewrite nc_updq | rewrite nc_upde | rewrite nc_updtn | rewrite nc_wcur | rewrite nc_updcs
+                    | rewrite nt_updq | rewrite nt_updcs | rewrite nt_updtn | rewrite nt_wcur | rewrite nt_upde
+                    | rewrite ntn_updq | rewrite ntn_updcs | rewrite ntn_upde | rewrite ntn_wcur | rewrite ntn_updtn
+                    | rewrite ng_updcs | rewrite ng_upde | rewrite ng_updtn | rewrite ng_wcur | rewrite ng_updq ].
+Ltac dims := repeat dims1.
+Ltac bnd := dims; assumption.
+Ltac gs1 :=
+  first [ rewrite getcs_updq | rewrite getcs_upde | rewrite getcs_updtn | rewrite getcs_wcur
+        | rewrite getcs_updcs_eq by bnd | rewrite getcs_updcs_neq by (auto; congruence)
+        | rewrite getent_updq | rewrite getent_updcs | rewrite getent_updtn | rewrite getent_wcur
+        | rewrite getent_upde_eq by bnd | rewrite getent_upde_neq by (auto; congruence)
+        | rewrite gettn_updq | rewrite gettn_updcs | rewrite gettn_upde | rewrite gettn_wcur
+        | rewrite gettn_updtn_eq by bnd | rewrite gettn_updtn_neq by (auto; congruence)
+        | rewrite getq_updcs | rewrite getq_upde | rewrite getq_updtn | rewrite getq_wcur
+        | rewrite getq_updq_eq by bnd | rewrite getq_updq_neq by (auto; congruence) ].
+Ltac gs := repeat gs1.
+Ltac gse := gs.
 Ltac frame_tac :=
+  repeat match goal with x := _ : half |- _ => subst x end;
   match goal with
-  | |- length _ = length _ => gs; rewrite ?length_upd; reflexivity
+  | |- length (h_cs ?a) = length (h_cs ?b) => change (nc a = nc b); dims; reflexivity
+  | |- length (h_ents ?a) = length (h_ents ?b) => change (nt a = nt b); dims; reflexivity
+  | |- length (h_tn ?a) = length (h_tn ?b) => change (ntn a = ntn b); dims; reflexivity
+  | |- length (h_qs ?a) = length (h_qs ?b) => change (ng a = ng b); dims; reflexivity
   | |- h_ctor _ = h_ctor _ => reflexivity
   | |- h_tgrp _ = h_tgrp _ => reflexivity
-  | |- forall x, x <> _ -> _ = _ => let x := fresh "x" in let N := fresh "N" in intros x N; gs; rewrite ?nth_upd_neq by auto; reflexivity
+  | |- forall x, x <> _ -> _ = _ => let x := fresh "x" in let N := fresh "N" in intros x N; gs; reflexivity
   end.
 
 Lemma inq_true s : inq s = true <-> cs_a s = true /\ cs_q s = true /\ cs_u s = false /\ cs_s s = false.
@@ -24,6 +101,7 @@ Lemma slot_inv d v c choke h h' r : v_dir v = d -> InvL d h -> slot v c choke h 
 Proof.
   intros Hd I. pose proof (iv_wf _ _ I) as W.
   pose proof (tor_lt h c W) as Ht. pose proof (grp_lt h (tor_of h c) W) as Hg.
+  assert (Htn : (tor_of h c < ntn h)%nat) by (unfold ntn; rewrite (wf_tn _ W); exact Ht).
   unfold slot. destruct (Bool.eqb choke (negb (cs_u (getcs h c)))) eqn:Eb; [discriminate|].
   set (t := tor_of h c) in *. set (g := grp_of h t) in *.
   destruct choke.
@@ -36,20 +114,20 @@ Proof.
     set (h2 := updq g _ _).
     assert (I2 : InvL d h2).
     { apply (reinv d h h2 c I Hc); try frame_tac; fold t; fold g.
-      - subst h2. gs. rewrite nth_upd_eq by bnd. reflexivity.
-      - subst h2. gs. rewrite nth_upd_eq by bnd. simpl. apply NoDup_push; auto. apply I; auto.
-      - subst h2. gs. rewrite nth_upd_eq by bnd. simpl. auto.
-      - intros x. subst h2. gs. rewrite !nth_upd_eq by bnd. simpl. rewrite In_push.
+      - subst h2. gs. reflexivity.
+      - subst h2. gs. simpl. apply NoDup_push; auto. apply I; auto.
+      - subst h2. gs. simpl. auto.
+      - intros x. subst h2. gs. simpl. rewrite In_push.
         unfold inq; simpl. fold (getcs h c). rewrite Ac, Qc, Sc. simpl.
         split; [intros [X|X]; [left; split; auto; intros ->; auto|right; auto]|intros [[_ X]|[X _]]; auto].
-      - intros x. subst h2. gs. rewrite !nth_upd_eq by bnd. simpl. rewrite Iu'.
+      - intros x. subst h2. gs. simpl. rewrite Iu'.
         unfold inu; simpl. rewrite andb_false_r. intuition congruence.
-      - subst h2. gs. rewrite !nth_upd_eq by bnd. unfold inu; simpl. rewrite andb_false_r. discriminate.
-      - intros Ed. subst h2. gs. rewrite !nth_upd_eq by bnd. simpl. fold (getcs h c). intros X. apply (iv_r _ _ I Ed c Hc X).
-      - subst h2. gs. rewrite !nth_upd_eq by (rewrite ?length_upd, ?(wf_tn _ W); assumption). simpl.
-        apply lenZ_remove_swap in R. unfold getent in R. lia.
-      - subst h2. gs. rewrite !nth_upd_eq by bnd. simpl. apply lenZ_remove_swap in R. unfold getent in R. lia.
-      - subst h2. gs. rewrite !nth_upd_eq by bnd. simpl. rewrite lenZ_push. lia. }
+      - subst h2. gs. unfold inu; simpl. rewrite andb_false_r. discriminate.
+      - intros Ed. subst h2. gs. simpl. fold (getcs h c). intros X. apply (iv_r _ _ I Ed c Hc X).
+      - subst h2. gs. simpl.
+        apply lenZ_remove_swap in R. lia.
+      - subst h2. gs. simpl. apply lenZ_remove_swap in R. lia.
+      - subst h2. gs. simpl. rewrite lenZ_push. lia. }
     destruct (v_dir v) eqn:Ev.
     + intros H. injection H as <- <-. auto.
     + assert (Rc : cs_r (getcs h c) = true) by (apply (iv_r _ _ I (eq_sym Hd) c Hc Qc)). rewrite Rc.
@@ -63,19 +141,19 @@ Proof.
     intros H. injection H as <- <-. split; auto.
     match goal with |- InvL d ?X => set (h2 := X) end.
     apply (reinv d h h2 c I Hc); try frame_tac; fold t; fold g.
-    + subst h2. gs. rewrite nth_upd_eq by bnd. reflexivity.
-    + subst h2. gs. rewrite nth_upd_eq by bnd. simpl. auto.
-    + subst h2. gs. rewrite nth_upd_eq by bnd. simpl. apply NoDup_push; auto. apply I; auto.
-    + intros x. subst h2. gs. rewrite !nth_upd_eq by bnd. simpl. rewrite Iq'.
+    + subst h2. gs. reflexivity.
+    + subst h2. gs. simpl. auto.
+    + subst h2. gs. simpl. apply NoDup_push; auto. apply I; auto.
+    + intros x. subst h2. gs. simpl. rewrite Iq'.
       unfold inq; simpl. rewrite !andb_false_r. simpl. intuition congruence.
-    + intros x. subst h2. gs. rewrite !nth_upd_eq by bnd. simpl. rewrite In_push.
+    + intros x. subst h2. gs. simpl. rewrite In_push.
       unfold inu; simpl. fold (getcs h c). rewrite Ac. simpl.
       split; [intros [X|X]; [left; split; auto; intros ->; auto|right; auto]|intros [[_ X]|[X _]]; auto].
-    + subst h2. gs. rewrite !nth_upd_eq by bnd. simpl. fold (getcs h c). auto.
-    + intros Ed. subst h2. gs. rewrite !nth_upd_eq by bnd. simpl. fold (getcs h c). intros X. apply (iv_r _ _ I Ed c Hc X).
-    + subst h2. gs. rewrite !nth_upd_eq by (rewrite ?length_upd, ?(wf_tn _ W); assumption). simpl. rewrite lenZ_push. lia.
-    + subst h2. gs. rewrite !nth_upd_eq by bnd. simpl. rewrite lenZ_push. lia.
-    + subst h2. gs. rewrite !nth_upd_eq by bnd. simpl. apply lenZ_remove_swap in R. unfold getent in R. lia.
+    + subst h2. gs. simpl. fold (getcs h c). auto.
+    + intros Ed. subst h2. gs. simpl. fold (getcs h c). intros X. apply (iv_r _ _ I Ed c Hc X).
+    + subst h2. gs. simpl. rewrite lenZ_push. lia.
+    + subst h2. gs. simpl. rewrite lenZ_push. lia.
+    + subst h2. gs. simpl. apply lenZ_remove_swap in R. lia.
 Qed.
 
 (* ---------------------------------------------------------------- changes that keep all lists *)
@@ -106,11 +184,11 @@ Lemma nth_upd_proj {A B} (f : A -> A) (p : A -> B) d : (forall x, p (f x) = p x)
 Proof. intros H. induction n; destruct m; destruct l; simpl; auto. Qed.
 
 Lemma inv_upde_lims d t F h : InvL d h -> (forall e, e_q (F e) = e_q e /\ e_u (F e) = e_u e) -> InvL d (upde t F h).
-Proof. intros I HF. apply (inv_same d h); auto; try (gs; rewrite ?length_upd; reflexivity).
-  intros t'. gs. split; apply nth_upd_proj; intros; apply HF. Qed.
+Proof. intros I HF. apply (inv_same d h); auto; try (unfold upde, with_ents; cbn [h_ents h_qs]; rewrite ?length_upd; reflexivity).
+  intros t'. unfold getent, upde, with_ents; cbn [h_ents]. split; apply nth_upd_proj; intros; apply HF. Qed.
 Lemma inv_updq_lims d g F h : InvL d h -> (forall q, q_cq (F q) = q_cq q /\ q_cu (F q) = q_cu q /\ q_ents (F q) = q_ents q) -> InvL d (updq g F h).
-Proof. intros I HF. apply (inv_same d h); auto; try (gs; rewrite ?length_upd; reflexivity).
-  intros g'. gs. repeat split; apply nth_upd_proj; intros; apply HF. Qed.
+Proof. intros I HF. apply (inv_same d h); auto; try (unfold updq, with_qs; cbn [h_ents h_qs]; rewrite ?length_upd; reflexivity).
+  intros g'. unfold getq, updq, with_qs; cbn [h_qs]. repeat split; apply nth_upd_proj; intros; apply HF. Qed.
 
 (* ---------------------------------------------------------------- flag-only change of one connection *)
 Lemma flag_inv d h c f : InvL d h -> (c < nc h)%nat ->
@@ -122,7 +200,7 @@ Proof.
   intros I Hc Eq Eu Hfl Hr. pose proof (iv_wf _ _ I) as W.
   pose proof (tor_lt h c W) as Ht.
   set (t := tor_of h c) in *.
-  assert (G : getcs (updcs c f h) c = f (getcs h c)) by (gs; rewrite nth_upd_eq by assumption; reflexivity).
+  assert (G : getcs (updcs c f h) c = f (getcs h c)) by (gs; reflexivity).
   apply (reinv d h (updcs c f h) c I Hc); try frame_tac; fold t; rewrite ?G; auto; try reflexivity; try lia.
   - apply I; auto.
   - apply I; auto.
@@ -146,6 +224,7 @@ Lemma enq_inv d h c f h' : InvL d h -> (c < nc h)%nat ->
 Proof.
   intros I Hc Eq Eu Eq' Hr. pose proof (iv_wf _ _ I) as W.
   pose proof (tor_lt h c W) as Ht. pose proof (grp_lt h (tor_of h c) W) as Hg.
+  assert (Htn : (tor_of h c < ntn h)%nat) by (unfold ntn; rewrite (wf_tn _ W); exact Ht).
   unfold connection_queued. change (tor_of (updcs c f h) c) with (tor_of h c).
   set (t := tor_of h c) in *. change (getent (updcs c f h) t) with (getent h t).
   change (grp_of (updcs c f h) t) with (grp_of h t). set (g := grp_of h t) in *.
@@ -155,21 +234,21 @@ Proof.
   { rewrite (iv_mu _ _ I t c Ht). intros (_ & _ & X). congruence. }
   apply inq_true in Eq'. destruct Eq' as (A' & Q' & U' & S').
   match goal with |- InvL d ?X => set (h2 := X) end.
-  assert (G : getcs h2 c = f (getcs h c)) by (subst h2; gs; rewrite nth_upd_eq by assumption; reflexivity).
+  assert (G : getcs h2 c = f (getcs h c)) by (subst h2; gs; reflexivity).
   apply (reinv d h h2 c I Hc); try frame_tac; fold t; fold g; rewrite ?G.
-  - subst h2. gs. rewrite nth_upd_eq by bnd. reflexivity.
-  - subst h2. gs. rewrite nth_upd_eq by bnd. simpl. apply NoDup_push; auto. apply I; auto.
-  - subst h2. gs. rewrite nth_upd_eq by bnd. simpl. apply I; auto.
-  - intros x. subst h2. gse. rewrite !nth_upd_eq by bnd. simpl. rewrite In_push.
+  - subst h2. gs. reflexivity.
+  - subst h2. gs. simpl. apply NoDup_push; auto. apply I; auto.
+  - subst h2. gs. simpl. apply I; auto.
+  - intros x. subst h2. gs. simpl. rewrite In_push.
     unfold inq. rewrite A', Q', U', S'. simpl.
     split; [intros [X|X]; [left; split; auto; intros ->; auto|right; auto]|intros [[_ X]|[X _]]; auto].
-  - intros x. subst h2. gse. rewrite !nth_upd_eq by bnd. simpl. unfold inu. rewrite U', andb_false_r.
+  - intros x. subst h2. gs. simpl. unfold inu. rewrite U', andb_false_r.
     split; [intros X; left; split; auto; intros ->; auto|intros [[_ X]|[_ X]]; [auto|discriminate]].
   - unfold inu. rewrite U', andb_false_r. discriminate.
   - auto.
-  - subst h2. gs. rewrite !nth_upd_eq by bnd. simpl. lia.
-  - subst h2. gs. rewrite !nth_upd_eq by bnd. simpl. lia.
-  - subst h2. gs. rewrite !nth_upd_eq by bnd. simpl. rewrite lenZ_push. lia.
+  - subst h2. gs. simpl. lia.
+  - subst h2. gs. simpl. lia.
+  - subst h2. gs. simpl. rewrite lenZ_push. lia.
 Qed.
 
 Lemma deq_inv d h c f p h' : InvL d h -> (c < nc h)%nat ->
@@ -180,6 +259,7 @@ Lemma deq_inv d h c f p h' : InvL d h -> (c < nc h)%nat ->
 Proof.
   intros I Hc Eu Eq' Eu' Hr. pose proof (iv_wf _ _ I) as W.
   pose proof (tor_lt h c W) as Ht. pose proof (grp_lt h (tor_of h c) W) as Hg.
+  assert (Htn : (tor_of h c < ntn h)%nat) by (unfold ntn; rewrite (wf_tn _ W); exact Ht).
   unfold connection_unqueued. change (tor_of (updcs c f h) c) with (tor_of h c).
   set (t := tor_of h c) in *. change (getent (updcs c f h) t) with (getent h t).
   change (grp_of (updcs c f h) t) with (grp_of h t). set (g := grp_of h t) in *.
@@ -188,19 +268,19 @@ Proof.
   assert (Hu : ~ In c (ids (e_u (getent h t)))).
   { rewrite (iv_mu _ _ I t c Ht). intros (_ & _ & X). congruence. }
   match goal with |- InvL d ?X => set (h2 := X) end.
-  assert (G : getcs h2 c = p (f (getcs h c))) by (subst h2; gs; rewrite !nth_upd_eq by bnd; reflexivity).
+  assert (G : getcs h2 c = p (f (getcs h c))) by (subst h2; gs; reflexivity).
   apply (reinv d h h2 c I Hc); try frame_tac; fold t; fold g; rewrite ?G.
-  - subst h2. gs. rewrite nth_upd_eq by bnd. reflexivity.
-  - subst h2. gs. rewrite nth_upd_eq by bnd. simpl. auto.
-  - subst h2. gs. rewrite nth_upd_eq by bnd. simpl. apply I; auto.
-  - intros x. subst h2. gse. rewrite !nth_upd_eq by bnd. simpl. rewrite Iq', Eq'. intuition congruence.
-  - intros x. subst h2. gse. rewrite !nth_upd_eq by bnd. simpl. rewrite Eu'.
+  - subst h2. gs. reflexivity.
+  - subst h2. gs. simpl. auto.
+  - subst h2. gs. simpl. apply I; auto.
+  - intros x. subst h2. gs. simpl. rewrite Iq', Eq'. intuition congruence.
+  - intros x. subst h2. gs. simpl. rewrite Eu'.
     split; [intros X; left; split; auto; intros ->; auto|intros [[_ X]|[_ X]]; [auto|discriminate]].
   - rewrite Eu'. discriminate.
   - auto.
-  - subst h2. gs. rewrite !nth_upd_eq by bnd. simpl. lia.
-  - subst h2. gs. rewrite !nth_upd_eq by bnd. simpl. lia.
-  - subst h2. gs. rewrite !nth_upd_eq by bnd. simpl. apply lenZ_remove_swap in R. unfold getent in R. lia.
+  - subst h2. gs. simpl. lia.
+  - subst h2. gs. simpl. lia.
+  - subst h2. gs. simpl. apply lenZ_remove_swap in R. lia.
 Qed.
 
 (* an unchoked connection is choked and taken out of the queue in one go
@@ -217,8 +297,9 @@ Lemma choke_deq_inv d v c f p h h1 r x h3 : v_dir v = d -> InvL d h -> (c < nc h
 Proof.
   intros Hd I Hc Eu Fa Fu Fr Pq Pu Pr. pose proof (iv_wf _ _ I) as W.
   pose proof (tor_lt h c W) as Ht. pose proof (grp_lt h (tor_of h c) W) as Hg.
+  assert (Htn : (tor_of h c < ntn h)%nat) by (unfold ntn; rewrite (wf_tn _ W); exact Ht).
   set (h0 := updcs c f h).
-  assert (G0 : getcs h0 c = f (getcs h c)) by (subst h0; gs; rewrite nth_upd_eq by assumption; reflexivity).
+  assert (G0 : getcs h0 c = f (getcs h c)) by (subst h0; gs; reflexivity).
   unfold slot. rewrite G0, Fu. simpl Bool.eqb. cbv iota.
   change (tor_of h0 c) with (tor_of h c). set (t := tor_of h c) in *.
   change (getent h0 t) with (getent h t). change (grp_of h0 t) with (grp_of h t). set (g := grp_of h t) in *.
@@ -228,7 +309,7 @@ Proof.
   assert (Hq : ~ In c (ids (e_q (getent h t)))) by (rewrite <- has_spec; congruence).
   set (h2 := updq g _ _).
   assert (G2 : getcs h2 c = set_t (v_now v) (set_u false (f (getcs h c)))).
-  { subst h2 h0. gs. rewrite !nth_upd_eq by bnd. reflexivity. }
+  { subst h2 h0. gs. reflexivity. }
   assert (E1 : forall rr, (match v_dir v with
                  | Up => Ok (h2, true)
                  | Dn => if cs_r (f (getcs h c)) then Ok (h2, true) else do h3 <- set_not_queued_inner c h2; Ok (h3, false)
@@ -240,7 +321,7 @@ Proof.
   intros H. apply E1 in H. subst h1. clear E1.
   unfold connection_unqueued. change (tor_of (with_cur h2 x) c) with t.
   assert (Eq2 : e_q (getent (with_cur h2 x) t) = push c (e_q (getent h t))).
-  { subst h2 h0. gs. rewrite nth_upd_eq by bnd. reflexivity. }
+  { subst h2 h0. gs. reflexivity. }
   rewrite Eq2. destruct (remove_swap c (push c (e_q (getent h t)))) as [q''|] eqn:R2; [|discriminate].
   assert (NDp : NoDup (ids (push c (e_q (getent h t))))) by (apply NoDup_push; auto; apply I; auto).
   destruct (remove_swap_spec _ _ _ R2 NDp) as (NDq'' & Iq'' & _).
@@ -248,21 +329,21 @@ Proof.
   intros H; injection H as <-.
   match goal with |- InvL d ?X => set (h4 := X) end.
   assert (G4 : getcs h4 c = p (set_t (v_now v) (set_u false (f (getcs h c))))).
-  { subst h4 h2 h0. gs. rewrite !nth_upd_eq by bnd. reflexivity. }
+  { subst h4 h2 h0. gs. reflexivity. }
   assert (Q4 : inq (getcs h4 c) = false) by (rewrite G4; exact Pq).
   assert (U4 : inu (getcs h4 c) = false) by (rewrite G4; exact Pu).
   apply (reinv d h h4 c I Hc); try (subst h4 h2 h0; frame_tac); fold t; fold g; rewrite ?Q4, ?U4.
-  - subst h4 h2 h0. gs. rewrite !nth_upd_eq by bnd. reflexivity.
-  - subst h4 h2 h0. gs. rewrite !nth_upd_eq by bnd. simpl. auto.
-  - subst h4 h2 h0. gs. rewrite !nth_upd_eq by bnd. simpl. auto.
-  - intros y. subst h4 h2 h0. gse. rewrite !nth_upd_eq by bnd. simpl. rewrite Iq'', In_push. intuition congruence.
-  - intros y. subst h4 h2 h0. gse. rewrite !nth_upd_eq by bnd. simpl. rewrite Iu'. intuition congruence.
+  - subst h4 h2 h0. gs. reflexivity.
+  - subst h4 h2 h0. gs. simpl. auto.
+  - subst h4 h2 h0. gs. simpl. auto.
+  - intros y. subst h4 h2 h0. gs. simpl. rewrite Iq'', In_push. intuition congruence.
+  - intros y. subst h4 h2 h0. gs. simpl. rewrite Iu'. intuition congruence.
   - discriminate.
   - intros Ed. rewrite G4. apply Pr; auto.
-  - subst h4 h2 h0. gs. rewrite !nth_upd_eq by (rewrite ?length_upd, ?(wf_tn _ W); assumption). simpl.
-    apply lenZ_remove_swap in R. unfold getent in R. lia.
-  - subst h4 h2 h0. gs. rewrite !nth_upd_eq by bnd. simpl. apply lenZ_remove_swap in R. unfold getent in R. lia.
-  - subst h4 h2 h0. gs. rewrite !nth_upd_eq by bnd. simpl. apply lenZ_remove_swap in R2. rewrite lenZ_push in R2. lia.
+  - subst h4 h2 h0. gs. simpl.
+    apply lenZ_remove_swap in R. lia.
+  - subst h4 h2 h0. gs. simpl. apply lenZ_remove_swap in R. lia.
+  - subst h4 h2 h0. gs. simpl. apply lenZ_remove_swap in R2. rewrite lenZ_push in R2. lia.
 Qed.
 
 (* ---------------------------------------------------------------- the per-connection operations *)
@@ -288,7 +369,7 @@ Proof.
   destruct (cs_s (getcs h c)) eqn:S.
   - intros H; injection H as <-. apply flag_inv; auto.
     + unfold inq; simpl. rewrite Q, S. rewrite !andb_false_r. reflexivity.
-    + unfold inu; simpl. rewrite U. discriminate.
+    + unfold inu; simpl. rewrite U, andb_false_r. discriminate.
   - destruct (connection_queued c _) as [h2|] eqn:CQ; [|discriminate]. intros H.
     eapply try_unchoke_new_inv; [exact Hd| |exact H].
     eapply (enq_inv d h c (set_q true)); eauto.
@@ -306,14 +387,14 @@ Lemma set_not_queued_inv d v c fr h h' : v_dir v = d -> InvL d h -> (c < nc h)%n
 Proof.
   intros Hd I Hc A FR. destruct (FR (getcs h c)) as (Fa & Fq & Fu & Fs & Ft).
   set (h0 := updcs c fr h).
-  assert (G0 : getcs h0 c = fr (getcs h c)) by (subst h0; gs; rewrite nth_upd_eq by assumption; reflexivity).
+  assert (G0 : getcs h0 c = fr (getcs h c)) by (subst h0; gs; reflexivity).
   unfold set_not_queued. rewrite G0, Fq, Fs, Fu.
   destruct (cs_q (getcs h c)) eqn:Q; simpl.
   2:{ intros H; injection H as <-. subst h0. apply flag_inv; auto.
-      - unfold inq. rewrite Fa, Fq, Fu, Fs. reflexivity.
+      - unfold inq. rewrite Fa, Fq, Fu, Fs, ?Q. reflexivity.
       - unfold inu. rewrite Fa, Fu. reflexivity.
-      - unfold inu. rewrite Fa, Fu, Fq, Fs. apply (iv_fl _ _ I c Hc).
-      - rewrite Fq, Q. discriminate. }
+      - unfold inu. rewrite Fa, Fu, Fq, Fs. intros X. destruct (iv_fl _ _ I c Hc X). split; congruence.
+      - rewrite Fq. discriminate. }
   destruct (cs_s (getcs h c)) eqn:S.
   - intros H; injection H as <-. subst h0. rewrite updcs_updcs. apply flag_inv; auto.
     + unfold inq; simpl. rewrite Fs, S. rewrite !andb_false_r. reflexivity.
@@ -337,7 +418,7 @@ Proof.
       eapply (deq_inv d h c _ (fun s => s)); [exact I|exact Hc| | | | |exact H]; simpl.
       * unfold inu. rewrite U, andb_false_r. reflexivity.
       * unfold inq; simpl. rewrite !andb_false_r. reflexivity.
-      * unfold inu; simpl. rewrite Fu, U, andb_false_r. reflexivity.
+      * unfold inu; simpl. rewrite ?Fu, ?U, andb_false_r. reflexivity.
       * intros _. discriminate.
 Qed.
 
@@ -365,7 +446,7 @@ Proof.
       * intros _. discriminate.
     + intros H; injection H as <-. apply flag_inv; auto.
       * unfold inq; simpl. rewrite Q. rewrite !andb_false_r. reflexivity.
-      * unfold inu; simpl. rewrite U. discriminate.
+      * unfold inu; simpl. rewrite U, andb_false_r. discriminate.
       * simpl. rewrite Q. discriminate.
 Qed.
 
@@ -386,7 +467,7 @@ Proof.
     + intros Ed. simpl. apply (iv_r _ _ I Ed c Hc Q).
   - intros H; injection H as <-. apply flag_inv; auto.
     + unfold inq; simpl. rewrite Q. rewrite !andb_false_r. reflexivity.
-    + unfold inu; simpl. rewrite U. discriminate.
+    + unfold inu; simpl. rewrite U, andb_false_r. discriminate.
     + simpl. rewrite Q. discriminate.
 Qed.
 
@@ -398,12 +479,13 @@ Lemma close_inv d c h h' : InvL d h -> (c < nc h)%nat -> cs_a (getcs h c) = true
 Proof.
   intros I Hc A. pose proof (iv_wf _ _ I) as W.
   pose proof (tor_lt h c W) as Ht. pose proof (grp_lt h (tor_of h c) W) as Hg.
+  assert (Htn : (tor_of h c < ntn h)%nat) by (unfold ntn; rewrite (wf_tn _ W); exact Ht).
   unfold close_half. set (t := tor_of h c) in *.
   set (p := fun s0 => set_a false (set_q false s0)).
   assert (Fin : forall hx, nc hx = nc h -> InvL d (updcs c p hx) -> InvL d (updcs c p hx) /\ cs_a (getcs (updcs c p hx) c) = false /\ nc (updcs c p hx) = nc h).
   { intros hx N X. split; auto. split.
-    - gs. rewrite nth_upd_eq by (unfold nc in *; lia). reflexivity.
-    - unfold nc in *. gs. rewrite length_upd. auto. }
+    - rewrite getcs_updcs_eq by lia. reflexivity.
+    - rewrite nc_updcs. auto. }
   destruct (cs_u (getcs h c)) eqn:U.
   - assert (IU : inu (getcs h c) = true) by (unfold inu; rewrite A, U; reflexivity).
     destruct (iv_fl _ _ I c Hc IU) as [Q S]. rewrite S.
@@ -412,26 +494,26 @@ Proof.
     set (g := grp_of h t) in *.
     destruct (remove_swap c (e_u (getent h t))) as [u'|] eqn:R; [|discriminate].
     destruct (remove_swap_spec _ _ _ R (iv_ndu _ _ I t Ht)) as (NDu' & Iu' & _).
-    intros H; injection H as <-. apply Fin; [unfold nc; subst h1; gs; rewrite ?length_upd; reflexivity|].
+    intros H; injection H as <-. apply Fin; [subst h1; dims; reflexivity|].
     match goal with |- InvL d ?X => set (h4 := X) end.
-    assert (G4 : getcs h4 c = p (getcs h c)) by (subst h4 h1; gs; rewrite !nth_upd_eq by bnd; reflexivity).
+    assert (G4 : getcs h4 c = p (getcs h c)) by (subst h4 h1; gs; reflexivity).
     assert (Q4 : inq (getcs h4 c) = false) by (rewrite G4; reflexivity).
     assert (U4 : inu (getcs h4 c) = false) by (rewrite G4; reflexivity).
     assert (Hq : ~ In c (ids (e_q (getent h t)))).
     { rewrite (iv_mq _ _ I t c Ht). intros (_ & _ & X). apply inq_true in X. destruct X as (_ & _ & X & _). congruence. }
     apply (reinv d h h4 c I Hc); try (subst h4 h1; frame_tac); fold t; fold g; rewrite ?Q4, ?U4.
-    + subst h4 h1. gs. rewrite !nth_upd_eq by bnd. reflexivity.
-    + subst h4 h1. gs. rewrite !nth_upd_eq by bnd. simpl. apply I; auto.
-    + subst h4 h1. gs. rewrite !nth_upd_eq by bnd. simpl. auto.
-    + intros y. subst h4 h1. gse. rewrite !nth_upd_eq by bnd. simpl.
+    + subst h4 h1. gs. reflexivity.
+    + subst h4 h1. gs. simpl. apply I; auto.
+    + subst h4 h1. gs. simpl. auto.
+    + intros y. subst h4 h1. gs. simpl.
       split; [intros X; left; split; auto; intros ->; auto|intros [[_ X]|[_ X]]; [auto|discriminate]].
-    + intros y. subst h4 h1. gse. rewrite !nth_upd_eq by bnd. simpl. rewrite Iu'. intuition congruence.
+    + intros y. subst h4 h1. gs. simpl. rewrite Iu'. intuition congruence.
     + discriminate.
     + intros _. rewrite G4. simpl. discriminate.
-    + subst h4 h1. gs. rewrite !nth_upd_eq by (rewrite ?length_upd, ?(wf_tn _ W); assumption). simpl.
-      apply lenZ_remove_swap in R. unfold getent in R. lia.
-    + subst h4 h1. gs. rewrite !nth_upd_eq by bnd. simpl. apply lenZ_remove_swap in R. unfold getent in R. lia.
-    + subst h4 h1. gs. rewrite !nth_upd_eq by bnd. simpl. lia.
+    + subst h4 h1. gs. simpl.
+      apply lenZ_remove_swap in R. lia.
+    + subst h4 h1. gs. simpl. apply lenZ_remove_swap in R. lia.
+    + subst h4 h1. gs. simpl. lia.
   - rewrite updtn_0.
     assert (IU : inu (getcs h c) = false) by (unfold inu; rewrite U, andb_false_r; reflexivity).
     destruct (cs_s (getcs h c)) eqn:S; [|destruct (cs_q (getcs h c)) eqn:Q].
@@ -445,8 +527,7 @@ Proof.
       apply Fin; auto. rewrite <- (updcs_id c h) in CU.
       eapply (deq_inv d h c (fun s => s) p); [exact I|exact Hc|exact IU| | | |exact CU]; try reflexivity.
       intros _. discriminate.
-    + intros H; injection H as <-. apply Fin; auto. apply flag_inv; auto.
-      * unfold inq at 2. rewrite Q, !andb_false_r. reflexivity.
-      * discriminate.
-      * intros _. discriminate.
+    + intros H; injection H as <-. apply Fin; auto.
+      apply flag_inv; auto; try discriminate; try (intros _; discriminate).
+      unfold inq at 2. rewrite Q, !andb_false_r. reflexivity.
 Qed.
